@@ -91,9 +91,19 @@ type entry struct {
 }
 
 type ref struct {
-	cache     bool
-	pend      map[recKey]*entry
-	issued    map[uint32]recKey // every entry token revealed upstream -> the entry it was attached to
+	cache  bool
+	pend   map[recKey]*entry
+	issued map[uint32]recKey // every entry token revealed upstream -> the entry it was (last) attached to
+	// attached: every entry whose forwarded Interest left carrying the token (the property's "the
+	// PIT token this forwarder attached when it forwarded that Interest": what the face put on the
+	// wire). One entry per token in a correct forwarder.
+	attached map[uint32][]recKey
+	// deferIssue: the faces are backlogged - an upstream transmission reveals its token only when
+	// the face serialises its queue (inst.flush), not when the thread hands the packet over
+	deferIssue bool
+	// allowed: PIT tokens a Data copy to a face could legitimately carry, per face, for the Data
+	// sends of the last arrival (what a backlogged face serialises later is judged against it)
+	allowed   map[uint64]map[string]bool
 	lastNonce map[string]uint32
 	seen      map[string]bool // name|nonce seen in an earlier Interest
 	deadSince map[string]time.Time
@@ -131,7 +141,7 @@ func (r *ref) lapsed(e *entry, now time.Time) bool {
 }
 
 func newRef(cache bool) *ref {
-	return &ref{cache: cache, pend: map[recKey]*entry{}, issued: map[uint32]recKey{}, lastNonce: map[string]uint32{},
+	return &ref{cache: cache, pend: map[recKey]*entry{}, issued: map[uint32]recKey{}, attached: map[uint32][]recKey{}, lastNonce: map[string]uint32{},
 		seen: map[string]bool{}, deadSince: map[string]time.Time{}, csWires: map[string]map[string]bool{}}
 }
 
@@ -235,18 +245,28 @@ func (r *ref) onInterest(in *inst, o *iOp, nonce uint32, life time.Duration, tok
 		return
 	}
 	// upstream transmissions reveal the entry token
+	qmark := len(in.queue)
 	for _, s := range intSends {
+		if r.deferIssue {
+			// ... once the backlogged face serialises it (inst.flush); the entry it belongs to is
+			// filled in below
+			in.queue = append(in.queue, queued{send: s, key: k})
+			continue
+		}
 		if th, t, ok := fwsim.IssuedToken(s.PitToken); ok && int(th) == in.sim.ThreadID() {
-			r.issued[t] = k
 			e := r.pend[k]
 			if e == nil {
 				e = &entry{recs: map[uint64]*rec{}}
 				r.pend[k] = e
 			}
-			tt := t
-			e.fwdTok = &tt
+			r.attach(t, k, e)
 		}
 	}
+	defer func() {
+		for i := qmark; i < len(in.queue); i++ {
+			in.queue[i].e = r.pend[k]
+		}
+	}()
 	if len(dataSends) > 0 {
 		// can only be an answer from the cache
 		stats["interest arrivals answered from the cache (C01.cs checked)"]++
@@ -304,10 +324,35 @@ func (r *ref) onInterest(in *inst, o *iOp, nonce uint32, life time.Duration, tok
 	return
 }
 
+// attach: an Interest forwarded for entry k (incarnation e, nil = gone) left carrying token t.
+func (r *ref) attach(t uint32, k recKey, e *entry) {
+	r.issued[t] = k
+	known := false
+	for _, x := range r.attached[t] {
+		if x == k {
+			known = true
+		}
+	}
+	if !known {
+		r.attached[t] = append(r.attached[t], k)
+	}
+	if e != nil {
+		tt := t
+		e.fwdTok = &tt
+	}
+}
+
 func (r *ref) gc(k recKey) {
 	if e := r.pend[k]; e != nil && len(e.recs) == 0 {
 		delete(r.pend, k)
 	}
+}
+
+func (r *ref) allow(face uint64, tok string) {
+	if r.allowed[face] == nil {
+		r.allowed[face] = map[string]bool{}
+	}
+	r.allowed[face][tok] = true
 }
 
 func (r *ref) checkCacheAnswer(o *iOp, k recKey, tok []byte, ds []fwsim.Send) (v []report.Violation) {
@@ -391,7 +436,7 @@ func (r *ref) onData(in *inst, face uint64, name string, tok []byte, wire []byte
 	// which pending Interests does it satisfy?
 	var cands []cand
 	tokClass := "no token"
-	adopt := false // consumption of non-must records follows the implementation
+	adopt := map[recKey]bool{} // consumption of non-must records follows the implementation
 	matched := map[recKey]bool{}
 	classify := func(k recKey, e *entry, sure bool) {
 		matched[k] = true
@@ -417,15 +462,18 @@ func (r *ref) onData(in *inst, face uint64, name string, tok []byte, wire []byte
 	if th, t, ok := fwsim.IssuedToken(tok); ok {
 		_ = th
 		tokClass = "token-addressed"
-		if k, known := r.issued[t]; known {
+		// every pending Interest that was forwarded carrying this token (one entry in a correct
+		// forwarder)
+		for _, k := range r.attached[t] {
 			if e := r.pend[k]; e != nil {
 				sure := e.fwdTok != nil && *e.fwdTok == t
 				if !sure {
-					adopt = true
+					adopt[k] = true
 				}
 				classify(k, e, sure)
 			}
-		} else {
+		}
+		if len(r.attached[t]) == 0 {
 			tokClass = "foreign 6-byte token"
 		}
 	} else {
@@ -446,10 +494,15 @@ func (r *ref) onData(in *inst, face uint64, name string, tok []byte, wire []byte
 	}
 	ctx := tokClass + ", " + matchClass
 	stats["data arrivals: "+ctx]++
-	if adopt {
+	if len(adopt) > 0 {
 		stats["data arrivals echoing a token not attached to the pending Interest (adopted)"]++
 	}
 	for _, c := range cands {
+		if !c.lapsed {
+			for _, t := range c.rc.tokens {
+				r.allow(c.face, t)
+			}
+		}
 		if c.must {
 			stats["copies demanded (must)"]++
 		} else if c.lapsed {
@@ -530,7 +583,7 @@ func (r *ref) onData(in *inst, face uint64, name string, tok []byte, wire []byte
 	for k := range matched {
 		e := r.pend[k]
 		for f := range e.recs {
-			if adopt {
+			if adopt[k] {
 				if implRec(in.dump, k, f) != nil {
 					continue // the implementation did not treat the token as matching: still pending
 				}
